@@ -48,7 +48,9 @@ def run_stream(name, fn, n, seed, gsv, maxdiff=10):
     if rc2 != 0 or len(model) != len(lines):
         problems.append("gsvmodel rc=%s lines=%d stderr=%s" % (rc2, len(model), err2[-300:]))
     st = gens.stats(lines, impl)
-    tot = max(1, len(lines))
+    if name == "lines_walk":
+        st = gens.stats_walk(lines, impl)     # the line itself is always `ok`: look at the replies
+    tot = max(1, sum(st.values()))
     okc = sum(c for (rk, ok), c in st.items() if ok in ("ok", "pyok"))
     bad_i = [lines[i] for i, x in enumerate(impl) if x == "bad-op"]
     bad_m = [lines[i] for i, x in enumerate(model) if x == "bad-op"]
